@@ -7,7 +7,7 @@ import lib
 from lib import zlit, vlist, vopt
 
 LEVEL = "proof"
-UNITS = []
+UNITS = ["GenBitField", "GenBitFieldShape"]
 
 HEADER = ("From Coq Require Import ZArith List. Import ListNotations. Open Scope Z_scope.\n"
           "Require Import Rig.Model.Base Rig.Model.BitField.\n")
@@ -217,7 +217,7 @@ def gen_history(rng, style):
         start = None
         r = rng.random()
         if r < 0.55:
-            length = rng.choice([1, 1, 2, 2, 3, 4, 5, 8] if not explicit else [1, 1, 1, 2, 2, 3]) \
+            length = rng.choice([1, 1, 2, 2, 3, 4, 5, 8, 9, 10] if not explicit else [1, 1, 1, 2, 2, 3]) \
                 if rng.random() < 0.93 else rng.choice([0, 13, 30, 34])
         if explicit and rng.random() < 0.45:
             start = rng.randint(0, max(0, Lpre - 1)) if rng.random() < 0.93 else rng.choice([-1, Lpre, Lpre + 2])
@@ -272,6 +272,8 @@ def gen_history(rng, style):
                     for f in pick:
                         hi = 1 if f["length"] is None else min(3, (1 << f["length"]) - 1)
                         kw[f["name"]] = rng.randint(0, max(hi, 1)) if f["length"] is None else rng.randint(0, hi)
+                        if (f["length"] is None and not f.get("fixed") or (f["length"] or 0) >= 9) and rng.random() < 0.12:
+                            kw[f["name"]] = rng.choice([257, 300, 511])      # not a cached small int
                     n = call(base, kw)
                     if n is None:
                         continue
@@ -345,6 +347,10 @@ def gen_history(rng, style):
         """give values to every present field of some instances so that keys can be generated"""
         for _ in range(count):
             n = rng.randrange(len(insts))
+            if insts[n] and rng.random() < 0.5:
+                # the same scope reached again from the original bit field with freshly built values
+                n2 = call(0, dict(insts[n]))
+                n = n if n2 is None else n2
             for _ in range(6):
                 fv = insts[n]
                 missing = [f for f in fields if present(f, fv) and f["name"] not in fv]
@@ -490,7 +496,7 @@ def choose_length(rng, ops, Lpre, style):
 
 
 STYLES = ["flat", "chain", "general", "general", "explicit", "explicit", "mixed", "incremental", "rejected", "collide",
-          "twosel"]
+          "twosel", "twosel"]
 
 
 def gen_twosel(rng):
@@ -506,11 +512,13 @@ def gen_twosel(rng):
     if rng.random() < 0.5:
         rng.shuffle(combos)
     n = 0
-    for va, vb in combos:
+    distinct = rng.random() < 0.5            # sibling scopes re-use the names, or use their own
+    for si, (va, vb) in enumerate(combos):
         kw = [[0, va], [1, vb]] if rng.random() < 0.8 else [[1, vb], [0, va]]
         ops.append(["call", 0, kw])
         n += 1
-        for name in ([5] if rng.random() < 0.6 else [5, 6]):          # the same names in every sibling scope
+        for name in ([5] if rng.random() < 0.6 else [5, 6]):
+            name = name + 2 * si if distinct else name
             tg = [t for t in (1, 2, 3) if rng.random() < 0.3]
             mode = rng.choice(["list", "gen", "str", "iter", "set"])
             if rng.random() < 0.6:
@@ -776,6 +784,9 @@ def make_probes(rng, fl, limit):
         w = fl.width(f)
         top = (1 << w) - 1
         vs = {0, top, min(1, top)}
+        # the values that open sub-scopes
+        vs |= {g["cond"][f["name"]] for g in fl.fields if f["name"] in g["cond"] and fl.depends_on(g, f)
+               and 0 <= g["cond"][f["name"]] <= top}
         if w <= 2:
             vs = set(range(top + 1))
         else:
@@ -927,6 +938,16 @@ def process(chk, cases, built, stats):
         pc = dict(c)
         pc["probes"] = [[[i_, v] for i_, v in fv.items()] for fv in probes]
         pc["tags"] = [1, 2, 3]
+        # the first probes also as operations of the history, so that the MODEL answers them too
+        ninst = 1 + sum(1 for r in res["outs"] if r[0] == "inst")
+        ext = []
+        for j, fv in enumerate(probes[:6]):
+            ext.append(["call", 0, pc["probes"][j]])
+            ext += [["value", ninst + j, None, None], ["mask", ninst + j, None, None]]
+            for t in (1, 2, 3):
+                ext += [["mask", ninst + j, t, None], ["value", ninst + j, t, None]]
+            ext.append(["tags", ninst + j, pc["probes"][j][0][0]])
+        pc["ops"] = list(c["ops"]) + ext
         pcases.append(pc)
         pidx.append((i, probes))
     chunks = [pcases[i:i + size] for i in range(0, len(pcases), size)]
@@ -944,7 +965,11 @@ def process(chk, cases, built, stats):
     # ---------------------------------------------------------------- model
     if not (chk.model_ok and built):
         return
-    good = [(c, res) for c, res in zip(cases, results) if isinstance(res, dict)]
+    extended = {i: (pc, pres) for (i, _), pc, pres in zip(pidx, pcases, presults)
+                if isinstance(pres, dict) and "outs" in pres}
+    good = [extended.get(i, (c, res)) for i, (c, res) in enumerate(zip(cases, results)) if isinstance(res, dict)]
+    stats["probe_ops_in_model"] = stats.get("probe_ops_in_model", 0) + sum(
+        len(pc["ops"]) - len(cases[i]["ops"]) for i, (pc, _) in extended.items())
     vals = chk.coq_eval(HEADER, [case_lit(c) for c, _ in good], shard=150 if chk.tier == "quick" else 350)
     for (c, res), v in zip(good, vals):
         chk.traces_validated += 1
@@ -987,6 +1012,10 @@ def run(chk, args):
         "a history ends at the first exception that is not ValueError/UnavailableFieldError/UnknownTagError "
         "(_Tree.add_field dies with RecursionError when the adding instance holds values of fields of two different "
         "child scopes; the tree is then left with ()-keyed children)"]
+    chk.regenerate(["GenBitField"])
+    usable = chk.model_ok
+    chk.regenerate(["GenBitFieldShape"])     # not imported by the model: a broken shape obligation must not stop
+    chk.model_ok = usable                    # the model from being run against the changed code
     built = chk.prove()
     corpus_path = lib.os.path.join(lib.VERIF, "corpus", "C08.json")
     corpus = json.load(open(corpus_path)) if lib.os.path.exists(corpus_path) else []
@@ -1006,6 +1035,7 @@ def run(chk, args):
     except RuntimeError as e:
         chk.oblige("correspondence:model-evaluates", False, str(e))
     chk.count("probes(complete assignments)", stats["probes"])
+    chk.count("probe operations answered by the model too", stats.get("probe_ops_in_model", 0))
     if chk.model_ok and built:
         chk.oblige("correspondence:histories (%d histories, every return value and exception class equal)"
                    % stats["histories"], stats["disagree"] == 0, "%d histories differ" % stats["disagree"])
